@@ -27,7 +27,7 @@ LANGS = ["Python", "C", "Java"]
 FIGS = {"F1": [[10, 35]], "F2": [[10], [61, 35, 31]], "F3": [[70]], "F4": [[45]], "F5": [[5], [5], [5]]}
 CUR = ["F1", "F2", "F4"]
 PREV = ["F1", "F2", "F3", "F5"]
-BOUNDS = {"quick": dict(stride=2, counts="{0, 1, 9, 10, 11, 13}"), "thorough": dict(stride=1, counts="{0, 1, 2, 5, 9, 10, 11, 12, 13, 25}")}
+BOUNDS = {"quick": dict(stride=1, counts="{0, 1, 9, 10, 11, 13}"), "thorough": dict(stride=1, counts="{0, 1, 2, 5, 9, 10, 11, 12, 13, 25}")}
 _CELL = re.compile(r"^\**\s*(-?[\d,.]+)(?:\s*\(([+-][\d,.]+)\))?\s*\**$")
 
 
